@@ -130,17 +130,37 @@ def th_scheme(check, proj, c):
 
 
 def jac_guard(check, proj):
+    """the Jacobian may be re-used only where dR/dQ does not depend on the state: every early
+    return of calc_jacobian must be conjoined with a linearity test of the MODEL and a linearity
+    test of the RECONSTRUCTION (a limited reconstruction makes the space operator nonlinear even
+    for linear convection); and the linearity each reconstruction class declares must be true."""
     f = proj.func("integration.implicitmodel.calc_jacobian")
-    fieldp = f.params[1]
+    sn = f.params[0]
+    # locals bound to the reconstruction object:  num = getattr(self.modeldisc, "num", None) / self.modeldisc.num
+    num_locals = set()
+    for n in ast.walk(f.node):
+        if isinstance(n, ast.Assign) and len(n.targets) == 1 and isinstance(n.targets[0], ast.Name):
+            if _mentions_attr(n.value, "num"):
+                num_locals.add(n.targets[0].id)
 
-    def islinear_test(t):
-        if isinstance(t, ast.Compare) and len(t.ops) == 1 and isinstance(t.ops[0], ast.Eq):
-            l, r = t.left, t.comparators[0]
-            if isinstance(l, ast.Attribute) and l.attr == "islinear" and isinstance(r, ast.Constant) and r.value in (1, True):
-                return True
+    def subject(t):
+        """'model' / 'num' / None for a test  X.islinear [== 1]  or  getattr(X, 'islinear', d) [== 1]"""
+        if isinstance(t, ast.Compare) and len(t.ops) == 1 and isinstance(t.ops[0], ast.Eq) and isinstance(t.comparators[0], ast.Constant) and t.comparators[0].value in (1, True):
+            t = t.left
+        obj = None
         if isinstance(t, ast.Attribute) and t.attr == "islinear":
-            return True
-        return False
+            obj = t.value
+        elif isinstance(t, ast.Call) and isinstance(t.func, ast.Name) and t.func.id == "getattr" and len(t.args) >= 2 and isinstance(t.args[1], ast.Constant) and t.args[1].value == "islinear":
+            if len(t.args) == 3 and not (isinstance(t.args[2], ast.Constant) and t.args[2].value in (0, False, None)):
+                return None            # a default that means 'linear' proves nothing
+            obj = t.args[0]
+        if obj is None:
+            return None
+        if _mentions_attr(obj, "num") or (isinstance(obj, ast.Name) and obj.id in num_locals):
+            return "num"
+        if _mentions_attr(obj, "model"):
+            return "model"
+        return None
 
     def conj(t):
         if isinstance(t, ast.BoolOp) and isinstance(t.op, ast.And):
@@ -158,19 +178,71 @@ def jac_guard(check, proj):
             last = top and i == len(stmts) - 1
             if isinstance(st, ast.Return) and not last:
                 found += 1
-                tests = [t for g in guards for t in conj(g)]
-                if not any(islinear_test(t) for t in tests):
-                    bad.append(st.lineno)
+                subs = {subject(t) for g in guards for t in conj(g)}
+                missing = [w for w in ("model", "num") if w not in subs]
+                if missing:
+                    bad.append((st.lineno, missing))
             elif isinstance(st, ast.If):
                 walk(st.body, guards + [st.test], False)
-                walk(st.orelse, guards, False)   # negated guard: not an islinear guarantee
+                walk(st.orelse, guards, False)   # negated guard: not a linearity guarantee
             elif isinstance(st, (ast.For, ast.While)):
                 walk(st.body, guards, False)
     walk(f.node.body, [], True)
+    names = {"model": "the model (islinear)", "num": "the reconstruction (a limited reconstruction such as muscl makes the operator nonlinear even for linear convection)"}
     if bad:
-        check.violation("JAC-GUARD", f.qualname, "cached-Jacobian early return at line(s) %s is not conjoined with islinear == 1: a nonlinear model would reuse a stale Jacobian" % bad, f.loc(), key="cache-guard")
+        ln, missing = bad[0]
+        check.violation("JAC-GUARD", f.qualname, "cached-Jacobian early return at line %d is not conjoined with a linearity test of %s: later steps re-use a stale Jacobian" % (ln, " nor of ".join(names[m] for m in missing)), f.loc(), key="cache-guard" if "model" in missing else "cache-guard-num")
     else:
-        check.ok("JAC-GUARD", f.qualname, "%d early return(s), each guarded by islinear == 1" % found, f.loc())
+        check.ok("JAC-GUARD", f.qualname, "%d early return(s), each guarded by the linearity of the model and of the reconstruction" % found, f.loc())
+    # declared linearity of the reconstruction classes is true
+    from ..disc1d import RECON_CLASSES
+    from .c11 import decoded
+    n = 0
+    for cn in RECON_CLASSES:
+        if not proj.has_cls("xnum." + cn):
+            continue
+        ci = proj.cls("xnum." + cn)
+        owner, expr = proj.class_attr(ci, "islinear")
+        decl = expr.value if isinstance(expr, ast.Constant) else None
+        for c in proj.mro(ci):
+            init = c.methods.get("__init__")
+        summ = proj.ctor_summary(ci)
+        if "islinear" in summ and summ["islinear"][0] == "const":
+            decl = summ["islinear"][1]
+        if decl is None and bad:
+            continue        # the guard does not consult the reconstruction at all: reported above
+        if decl is None:
+            check.violation("JAC-LINEAR", ci.qualname, "no constant `islinear` declaration: the cache guard cannot tell whether this reconstruction is linear", ci.loc(), key="nodecl")
+            continue
+        n += 1
+        if int(decl) != 1:
+            check.ok("JAC-LINEAR", ci.qualname, "declared nonlinear: the Jacobian is recomputed at every step", ci.loc(), nontrivial=False)
+            continue
+        D, ci2, num, L, R = decoded(proj, cn)
+        A = D.alg
+        nonlin = None
+        for arr in (L, R):
+            for l, h, v in arr.segs:
+                if A.atoms_of(v, "opaque") or A.atoms_of(v, "ind"):
+                    nonlin = "a limiter / selection enters the face state"
+                for m in v.num:
+                    if sum(e for a, e in m if A.atoms[a].name.startswith("d@") or A.atoms[a].name.startswith("d#")) > 1:
+                        nonlin = "a product of data entries enters the face state"
+        if nonlin:
+            check.violation("JAC-LINEAR", ci.qualname, "declares islinear = 1 but %s: the cached Jacobian is stale after the first step" % nonlin, ci.loc(), key="false-decl")
+        else:
+            check.ok("JAC-LINEAR", ci.qualname, "declared linear, and the decoded left / right face states are affine in the cell data on every segment", ci.loc())
+    if not bad:
+        check.floor("reconstruction classes with a linearity declaration", n, 8)
+
+
+def _mentions_attr(node, attr):
+    for n in ast.walk(node):
+        if isinstance(n, ast.Attribute) and n.attr == attr:
+            return True
+        if isinstance(n, ast.Call) and isinstance(n.func, ast.Name) and n.func.id == "getattr" and len(n.args) >= 2 and isinstance(n.args[1], ast.Constant) and n.args[1].value == attr:
+            return True
+    return False
 
 
 def fd_column(check, proj):
